@@ -141,6 +141,13 @@ Theorem C09_backend_buffers :
 Proof. exact (@process_request). Qed.
 Print Assumptions C09_backend_buffers.
 
+(* a reception terminates on every finite input, on both transports (never a hang: the model never runs out of fuel) *)
+Theorem C09_reception_terminates :
+  forall (p : regp) (oct : bool) (inp : list N) (calls : N) (ok : bool),
+         regp_recv p (plain_src oct inp calls) ok <> None.
+Proof. exact (@recv_total). Qed.
+Print Assumptions C09_reception_terminates.
+
 (* after every round of any session history: allocations = releases *)
 Theorem C09_session_balance :
   forall (p : regp) (rounds : nat) (st : sess) (rs : list round) (st' : sess),
